@@ -29,6 +29,8 @@ def policy_dict(scn):
         d['attribute_restrictions'] = {'givenName': None, 'mail': None}
     elif p == 'a1v1only':
         d['attribute_restrictions'] = {'givenName': ['^%s$' % VAL['v1']], 'mail': None}
+    elif p == 'a1v1twice':
+        d['attribute_restrictions'] = {'givenName': ['^val-one', u'^val-o.*\u00e9$'], 'mail': None}
     elif p == 'perSP_a1':
         for e in sp_ids():
             pol[e] = {'attribute_restrictions': {'GivenName': None}}
@@ -201,8 +203,8 @@ def main():
         raise fw.Machinery('nothing was ever released: templates broken')
     chk.cov['exhaustive'] = chk.tier == 'thorough'
     chk.cov['rule'] = ('scenarios of IdPRelease.tla, each on a long-lived server that serves twelve kinds of provider and has just served '
-                      'none or one of them (thorough: all 52 416; quick: the 4 032 without predecessor and a seeded 8% of the rest): identity (3 attributes, multi-valued, non-ASCII, upper-case key) x 7 policy '
-                      'shapes (none, names, value pattern, per-SP entry, per-SP entry falling back to default, entity categories, '
+                      'none or one of them (thorough: all 59 904; quick: the 4 608 without predecessor and a seeded 8% of the rest): identity (3 attributes, multi-valued, non-ASCII, upper-case key) x 8 policy '
+                      'shapes (none, names, value pattern, two overlapping value patterns, per-SP entry, per-SP entry falling back to default, entity categories, '
                       'categories + names) x 6 SP declarations (required/optional, value constraints, unsatisfiable) x entity category '
                       'x fail_on_missing_requested')
     chk.assumptions = ['patterns are anchored so that a configured pattern means exactly its value set',
